@@ -1,7 +1,7 @@
 (* Correspondence cases over the codec universe (C01, C02, C03, C07, C08, C11,
    C12, C14, C18, C19, C09): what the implementation did on a case, compared
    with what the model computes. *)
-Require Import Scale.Bytes Scale.Hex Scale.Eres Scale.Prog Scale.Real Scale.CompactImpl Scale.CompactSpec Scale.Codec Scale.Rec.
+Require Import Scale.Bytes Scale.Hex Scale.Eres Scale.Prog Scale.Real Scale.CompactImpl Scale.CompactSpec Scale.Codec Scale.Rec Scale.RecRt.
 
 Definition vbytes (s : list byte) : val := VSeq (map (fun b => VN (Byte.to_N b)) s).
 Definition vwords (B : N) (s : list byte) : val := VSeq (map VN (words B s)).
@@ -145,7 +145,8 @@ Inductive gcase :=
 | GRun (t : ty) (known : bool) (ls : list layer) (inp : list byte) (r : rres)
 | GAlloc (t : ty) (known : bool) (inp : list byte) (al : list N)   (* sizes announced to on_before_alloc_mem, in order *)
 | GPeak (t : ty) (known : bool) (inp : list byte) (peak : N)
-| GRecRun (d : rdef) (F : N) (known : bool) (ls : list layer) (inp : list byte) (r : rres).     (* measured peak of live heap bytes during the decode *)
+| GRecRun (d : rdef) (F : N) (known : bool) (ls : list layer) (inp : list byte) (r : rres)
+| GRecEnc (d : rdef) (F : N) (v : val) (out : list byte).     (* measured peak of live heap bytes during the decode *)
 
 (* number of modelled reservations: each is one allocator request of the implementation, which may
    carry a header the model does not describe (the two reference counts of Rc/Arc, 16 bytes, plus
@@ -170,6 +171,11 @@ Definition g_check (c : gcase) : bool :=
   | GAlloc t known inp al => ns_eqb (allocs (snd (runt (dec t) known inp))) al
   | GPeak t known inp peak => peak <=? peak_bound (snd (runt (dec t) known inp))
   | GRecRun d F known ls inp r => rres_eqb ls (model_rec_run d F known ls inp) r
+  | GRecEnc d F v out =>
+      match renc (N.to_nat F) d v with
+      | EOk bs => bytes_eqb bs out
+      | _ => false
+      end
   end.
 
 Inductive gmodel := MEnc (r : eres (list byte)) | MDec (r : dres) | MRun (r : rres) | MAlloc (l : list N).
@@ -181,4 +187,5 @@ Definition g_model (c : gcase) : gmodel :=
   | GAlloc t known inp _ => MAlloc (allocs (snd (runt (dec t) known inp)))
   | GPeak t known inp _ => MAlloc [real_sum (snd (runt (dec t) known inp)); real_count (snd (runt (dec t) known inp))]
   | GRecRun d F known ls inp _ => MRun (model_rec_run d F known ls inp)
+  | GRecEnc d F v _ => MEnc (renc (N.to_nat F) d v)
   end.
